@@ -53,6 +53,14 @@ FactoryConsistent(r) ==
   /\ r.cls # "none" => /\ r.backCls = r.cls                         \* the class's own code maps back to the class
                        /\ ClassOf(r.ctorCode) = r.cls
 
+(* C17 — a default-constructed object is written under a code of its own class and reading it back yields an
+   object of the same class (the decoder consumes exactly what was written and does not fail) *)
+DefaultRoundTrip(r) ==
+  /\ ~r.crashed /\ ~r.encThrew
+  /\ ClassOf(r.otField) = r.cls
+  /\ r.decCls = r.cls
+  /\ r.decGood /\ ~r.decThrew /\ r.consumed = r.emitted
+
 (* C02 — an image from a Vector-produced log: the registry knows its class, the padding rule explains its
    length, decoding is complete, and encoding the decoded object reproduces the image and every derived image
    that keeps its shape *)
@@ -75,6 +83,7 @@ RecordOK(r) == CASE Which = "C03" -> FramedAsDeclared(r)
                  [] Which = "C02" -> ImageOK(r)
                  [] Which = "C01" -> RoundTrip(r)
                  [] Which = "C17" -> FactoryConsistent(r)
+                 [] Which = "C17D" -> DefaultRoundTrip(r)
 
 Init == i = 1
 Next == i < Len(Records) /\ i' = i + 1
